@@ -162,7 +162,8 @@ class BaseDevice:
         delay = getattr(self.b, "resend_latency", lambda d: 0.0)(self)
         self._flush_input()
         self.send_line(error, "tx-error")
-        self.send_line(b"Resend: %d" % (self.last_n + 1), "tx-resend")
+        fmt = getattr(self.b, "resend_format", b"Resend: %d")
+        self.send_line(fmt % (self.last_n + 1), "tx-resend")
         if delay:
             time.sleep(delay)
         self.send_line(b"ok", "tx-ok-after-resend")
